@@ -259,6 +259,21 @@ def run_cfg(ctx, p, cfg):
                 region = b.reach(t, include_src=True) - b.reach(oth, include_src=True)
                 names |= {(c.callee or "").rsplit("::", 1)[-1] for c in b.calls() if c.block in region}
             r.require(lab.lower() in names and other not in names, "stream:%s" % lab, fn=b, detail="calls on the %s arm: %s" % (lab, sorted(names)))
+        # every stream constructor is chosen by the target: it sits on the matching arm of some match on the target, never on a
+        # path both arms share (a common fallback wired to one stream sends the other target's output there)
+        for c in b.calls():
+            nm = (c.callee or "").rsplit("::", 1)[-1]
+            if nm not in ("stdout", "stderr"):
+                continue
+            arms = []
+            for top in tops:
+                for lab in ("Stdout", "Stderr"):
+                    t, oth = arm(top, lab), arm(top, "Stderr" if lab == "Stdout" else "Stdout")
+                    if c.block in (b.reach(t, include_src=True) - b.reach(oth, include_src=True)):
+                        arms.append(lab)
+            r.require(bool(arms) and all(a.lower() == nm for a in arms), "stream-chosen-by-target:%s" % common.role(c), fn=b, site=c.at,
+                      detail="%s is constructed on the %s arm(s) of the target match" % (c.callee, sorted(set(arms))),
+                      fail_detail="%s is constructed %s: an appender for the other target writes there" % (c.callee, "on a path shared by both targets" if not arms else "on the %s arm" % sorted(set(arms))))
 
     with ctx.rule("X4", "tty decision independent of colour", cfg) as r:
         b = p.fn(BUILD)
